@@ -193,7 +193,7 @@ pub struct CliCase {
     pub ignored: u8,
 }
 
-fn cli_args(o: &OptSpec) -> Vec<String> {
+pub fn cli_args(o: &OptSpec) -> Vec<String> {
     let mut a = Vec::new();
     let mut push = |k: &str, v: String| {
         a.push(k.to_string());
@@ -227,7 +227,7 @@ fn cli_args(o: &OptSpec) -> Vec<String> {
     a
 }
 
-fn cli_env(o: &OptSpec) -> Vec<(String, String)> {
+pub fn cli_env(o: &OptSpec) -> Vec<(String, String)> {
     cli_args(o)
         .chunks(2)
         .map(|kv| (format!("DIVAN_{}", kv[0].trim_start_matches("--").replace('-', "_").to_uppercase()), kv[1].clone()))
@@ -320,7 +320,7 @@ fn lattice(_: Tier) -> Vec<Case> {
     out
 }
 
-fn runner_opts() -> impl Strategy<Value = OptSpec> {
+pub fn runner_opts() -> impl Strategy<Value = OptSpec> {
     twingen::opt_spec(0.3).prop_map(|mut o| {
         o.ignore = None;
         // Runner-level lists are normalised by the builder / CLI.
@@ -367,6 +367,6 @@ fn cli_case() -> impl Strategy<Value = CliCase> {
 
 fn groups(g: &mut Groups) {
     g.enumerate("presence_lattice", lattice, true, check_case);
-    g.prop("twin", 6_000, 300_000, case(), check_case);
-    g.prop("cli_env", 500, 12_000, cli_case(), check_cli);
+    g.prop("twin", 15_000, 300_000, || case(), check_case);
+    g.prop("cli_env", 1_200, 12_000, || cli_case(), check_cli);
 }
